@@ -85,11 +85,75 @@ func newSolver(dir, tier string, seed int) *Solver {
 	return &Solver{dir: dir, tier: tier, seed: seed, bySolver: map[string]int{}}
 }
 
-// solve decides one obligation instance.
+// splitGoal breaks a goal into conjuncts, also under implications:
+// (=> a (and b c)) becomes (=> a b), (=> a c).
+func splitGoal(g string) []string {
+	if strings.HasPrefix(g, "(and ") {
+		var out []string
+		for _, p := range splitSexp(g[5 : len(g)-1]) {
+			out = append(out, splitGoal(p)...)
+		}
+		return out
+	}
+	if strings.HasPrefix(g, "(=> ") {
+		parts := splitSexp(g[4 : len(g)-1])
+		if len(parts) == 2 {
+			var out []string
+			for _, c := range splitGoal(parts[1]) {
+				out = append(out, sImp(parts[0], c))
+			}
+			return out
+		}
+	}
+	return []string{g}
+}
+
+// solve decides one obligation instance.  Conjunctive goals are decided
+// conjunct by conjunct (each is a smaller query); the obligation is
+// discharged only if every conjunct is.
 func (s *Solver) solve(o *Oblig) {
 	if !o.Cover && o.Goal == "true" {
 		o.Verdict, o.Solver = "unsat", "syntactic"
 		return
+	}
+	if !o.Cover && !o.noSplit {
+		if parts := splitGoal(o.Goal); len(parts) > 1 {
+			// first the whole goal with a short budget
+			whole := *o
+			whole.noSplit = true
+			whole.quickOnly = true
+			s.solve(&whole)
+			if whole.Verdict == "unsat" || whole.Verdict == "sat" {
+				o.Verdict, o.Solver, o.TimeMS, o.Raw, o.Relaxed = whole.Verdict, whole.Solver, whole.TimeMS, whole.Raw, whole.Relaxed
+				return
+			}
+			o.TimeMS += whole.TimeMS
+			solverSet := map[string]bool{}
+			o.Verdict = "unsat"
+			for _, p := range parts {
+				sub := *o
+				sub.Goal = p
+				sub.noSplit = true
+				s.solve(&sub)
+				o.TimeMS += sub.TimeMS
+				if os.Getenv("GOVC_SLOW") != "" && sub.TimeMS > 800 {
+					fmt.Fprintf(os.Stderr, "slow conjunct %dms %s [%s] %v: %s\n", sub.TimeMS, o.Name, sub.Solver, o.Trace, trunc(p, 260))
+				}
+				solverSet[sub.Solver] = true
+				if sub.Verdict != "unsat" {
+					o.Verdict, o.Raw, o.Relaxed = sub.Verdict, "failing conjunct: "+trunc(p, 400)+"\n"+sub.Raw, sub.Relaxed
+					o.FailGoal = p
+					break
+				}
+			}
+			var ss []string
+			for k := range solverSet {
+				ss = append(ss, k)
+			}
+			sortStrings(ss)
+			o.Solver = strings.Join(ss, ",")
+			return
+		}
 	}
 	script := o.script(true)
 	h := sha256.Sum256([]byte(script))
@@ -119,11 +183,14 @@ func (s *Solver) solve(o *Oblig) {
 			res.verdict = "sat"
 		}
 		all = append(all, res)
+	} else if o.quickOnly {
+		res = runSolver(solvers[0], file, 3, s.seed)
+		all = append(all, res)
 	} else {
 		res = runSolver(solvers[0], file, t1, s.seed)
 		all = append(all, res)
 	}
-	if res.verdict != "unsat" && res.verdict != "sat" || (res.verdict == "sat" && !o.Cover && false) {
+	if !o.quickOnly && !o.Cover && res.verdict != "unsat" && res.verdict != "sat" {
 		// fall back to the other two in parallel
 		ch := make(chan solveResult, 2)
 		for _, sv := range solvers[1:] {
@@ -175,7 +242,7 @@ func (s *Solver) solve(o *Oblig) {
 	if res.verdict == "unsat" || (o.Cover && res.verdict == "sat") {
 		os.Remove(file)
 	}
-	if !o.Cover && res.verdict != "unsat" && res.verdict != "sat" {
+	if !o.Cover && !o.quickOnly && res.verdict != "unsat" && res.verdict != "sat" {
 		// candidate counterexample from the relaxed query (quantified
 		// hypotheses dropped); it only counts if the replay confirms it
 		rf := filepath.Join(s.dir, key+".relaxed.smt2")
